@@ -83,7 +83,7 @@ def tok_replay(v, acc, alphas, maxlen, sig="tokenizer-replay", timeout=1500):
         s = summ[0]
         acc.evaluations += s["vectors"]; acc.nontrivial += s["nontrivial"]
         acc.extra.setdefault("replay", []).append({"alphabet": k, "vectors": s["vectors"], "nontrivial": s["nontrivial"], "mismatches": s["mismatches"]})
-        acc.samples += [{"alphabet": k, "vector": x} for x in s.get("samples", [])[:1]]
+        acc.samples += [{"alphabet": k, "vector": x} for x in (s.get("samples") or [])[:1]]
         for r in recs:
             if r.get("kind") == "mismatch":
                 v.fail(sig, {"alphabet": k, "src": r["src"], "why": r["why"], "spec": r["spec"]})
@@ -209,7 +209,7 @@ def match_replay(v, acc, names, maxk, maxt, sig="stage-replay", timeout=2400):
         s = summ[0]
         acc.evaluations += s["vectors"]; acc.nontrivial += s["nontrivial"]
         acc.extra.setdefault("stage_replay", []).append({"threshold": MATCH_THR[n], "vectors": s["vectors"], "fused_nonempty": s["nontrivial"], "mismatches": s["mismatches"]})
-        acc.samples += [{"threshold": MATCH_THR[n], "vector": x} for x in s.get("samples", [])[:1]]
+        acc.samples += [{"threshold": MATCH_THR[n], "vector": x} for x in (s.get("samples") or [])[:1]]
         for r in recs:
             if r.get("kind") == "mismatch":
                 v.fail(sig, {"thr": r["thr"], "why": r["why"], "spec": r["spec"]})
